@@ -80,6 +80,7 @@ class EntryState(object):
         self.assumptions = []
         self.n_max = None
         self.init_mxcsr = None
+        self.rows = 1
 
 
 def initial_mxcsr(rc=0, prefix='init_'):
@@ -116,20 +117,27 @@ def orc_entry_state(prog, solver, n_max, n_min=0, m_max=2, rc=0, symbolic_index=
     asm = [n >= n_min, n <= n_max]
     is2d = bool(prog.get('orccode') and prog['orccode'].get('is_2d'))
     if is2d:
+        # a program compiled with a constant m never reads executor.m: the number of rows is that constant
+        cm = prog['orccode'].get('constant_m') or 0
         mm_ = z3.BitVec('m', 32)
-        es.m = mm_
+        es.m = mm_ if not cm else z3.BitVecVal(cm, 32)
         ex.set_bytes(L['params'] + 4 * L['A1'], mm_, 4)
-        asm += [mm_ >= 1, mm_ <= m_max]
+        if cm:
+            m_max = cm
+            asm += [mm_ == cm]
+        else:
+            asm += [mm_ >= 1, mm_ <= m_max]
+    es.rows = m_max if is2d else 1
     for v in prog.get('prog_vars', []):
         i, name, vt, size = v['i'], v['name'], VARTYPE.get(v['vartype']), v['size']
         if vt in ('src', 'dest'):
             base = z3.BitVec('A_' + name, 64)
             writable = vt == 'dest'
-            reg = mem.add(Region(name, base, None, writable, symbolic_index=name in symbolic_index))
+            stride = z3.BitVec('stride_' + name, 32) if is2d else None
+            reg = mem.add(Region(name, base, None, writable, symbolic_index=name in symbolic_index, stride=stride,
+                                 rows=m_max if is2d else 1))
             ex.set_bytes(L['arrays'] + 8 * i, base, 8)
-            stride = None
             if is2d:
-                stride = z3.BitVec('stride_' + name, 32)
                 ex.set_bytes(L['params'] + 4 * i, stride, 4)
             al = v.get('alignment') or size
             if constrain_alignment and al > 1 and (al & (al - 1)) == 0:
